@@ -16,6 +16,7 @@
 (*          must have been reached at that level (vacuity guard, judged here, reported as vacuous run) *)
 (* The events of one (history, run) group arrive with lv ascending.                                    *)
 EXTENDS ArchTwins, Json, IOUtils
+CONSTANT TolerateFirSat     \* TRUE: the listed finding Farch1 (celt_fir_sse4_1 saturates to -32768, celt_fir_c to -32767) is tolerated, and nothing else
 VARIABLES l, tabs, cfg, grp, reached
 vars == <<l, tabs, cfg, grp, reached>>
 
@@ -29,31 +30,40 @@ Fx == cfg.fx
 KcOK(e) ==
   /\ e.kern \in KnownKernels
   /\ LET c == Class(e.kern, e.fx) IN
-     CASE c = "int" -> e.cls = "int" /\ e.ref = e.got                            \* bit-identical
+     CASE c = "int" -> /\ e.cls = "int"
+                       /\ \/ e.ref = e.got                                     \* bit-identical
+                          \/ /\ TolerateFirSat /\ e.impl = "celt_fir_sse4_1"    \* (Farch1: every differing sample is -32767 against -32768)
+                             /\ e.nd > 0 /\ e.nd = e.nsat
        [] e.kern = "op_pvq_search" ->
             /\ e.cls = "pvq"
-            /\ e.sums = e.K /\ e.sumc = e.K                                      \* K pulses
-            /\ e.sss = e.yys /\ e.ssc = e.yyc                                    \* returned energy = sum of squares
-            /\ (e.deg = 0 => e.qs + PvqTol >= e.qc)                              \* match with the input
-       [] e.kern = "comb_filter_const_inplace" -> e.cls = "flt" /\ e.r <= CombInPlaceFactor * FltBound(e.n)
-       [] OTHER -> e.cls = "flt" /\ e.r <= FltBound(e.n)
+            /\ e.sums = e.K /\ e.sumc = e.K                                      \* K pulses, whatever the data (NaN, Inf, ...)
+            /\ (e.deg = 0 => /\ e.sss = e.yys /\ e.ssc = e.yyc                    \* returned energy = sum of squares
+                             /\ e.qs + PvqTol >= e.qc)                           \* match with the input
+            \* degenerate input (a NaN / Inf element, |X| far outside the kernels' window) and K > N/2: both kernels replace
+            \* the vector by one pulse at position 0 before they project it - exactly the portable codeword
+            /\ ((e.deg = 1 /\ e.proj = 1) => e.same = 1)
+       \* float kernels on data that are not finite (nf = 1): reassociation error is not defined, nothing is demanded
+       [] OTHER -> e.cls = "flt" /\ (e.nf = 1 \/ e.r <= FltBound(e.n))
 
 IsOK(e) ==
   /\ e.kern \in KnownKernels
   /\ LET c == Class(e.kern, e.fx) IN
-     CASE c = "int" -> e.neq = 0
+     CASE c = "int" -> e.neq = 0 \/ (TolerateFirSat /\ e.impl = "celt_fir_sse4_1")
        [] e.kern = "op_pvq_search" -> TRUE
-       [] e.kern = "comb_filter_const_inplace" -> e.r <= CombInPlaceFactor * FltBound(e.n)
        [] OTHER -> e.r <= FltBound(e.n)
 
 \* ---- whole-codec twins -----------------------------------------------------------------------------
 SameGroup(g, e) == g.k = e.k /\ g.t = e.t /\ (e.k = "dec" => g.src = e.src)
 ArchOK(e) == e.arch = -1 \/ e.arch = (IF e.lv <= cfg.top THEN e.lv ELSE cfg.top)
 
+FirDiffers(a, b) == \E i \in 1..Len(tabs) : tabs[i].kern = "celt_fir" /\ RowDiffers(tabs[i], a, b)
 EncPairOK(g, e) == MustBeIdentical(tabs, Fx, g.lv, e.lv) => (e.pd = g.pd /\ e.bytes = g.bytes /\ e.bad = g.bad)
 DecPairOK(g, e) ==
   /\ e.rd = g.rd                                                   \* same packets: same final ranges and sample counts
-  /\ MustBeIdentical(tabs, Fx, g.lv, e.lv) => e.pd = g.pd          \* ... and the same PCM
+  /\ MustBeIdentical(tabs, Fx, g.lv, e.lv) =>                      \* ... and the same PCM
+        \/ e.pd = g.pd
+        \* (Farch1 tolerated: after a concealed frame, between levels that select different celt_fir implementations)
+        \/ TolerateFirSat /\ e.clean = 0 /\ FirDiffers(g.lv, e.lv)
   \* (between levels that differ in float kernels the PCM may differ: e.mx, the measured max |difference| against the
   \*  level-0 twin, is recorded in the evidence only.  A first version demanded e.mx <= 4 on loss-free streams; the
   \*  pinned tree refuted the premise that no float kernel is on that path - a mode transition conceals one frame and the
